@@ -806,6 +806,11 @@ func checkConc(w *world, c concCase, cfg Cfg, o *hx.Oracle, budget int, origin s
 			asis = try(cfg.AtomicClose, cfg.AtomicRt, budget*3)
 		}
 		sig := "C10:non-linearizable-history"
+		defer func() {
+			if strings.HasPrefix(sig, "C10:") {
+				unexplained.Add(1)
+			}
+		}()
 		switch {
 		case asis == "unknown":
 			sig = "" // search budget exceeded twice: inconclusive, counted, never a verdict
@@ -1074,6 +1079,10 @@ func main() {
 		}()
 	}
 	for i := 0; i < nconc; i++ {
+		if unexplained.Load() > 10 {
+			rep.Note("concurrent phase stopped after %d histories: more than 10 non-linearizable histories that the model does not explain", i)
+			break
+		}
 		engine := []string{"interpreter", "compiler"}[i%2]
 		threads := 2 + r.Intn(7)
 		opsPer := 5 + r.Intn(6)
@@ -1094,6 +1103,8 @@ func main() {
 	orc.N += extraOracleOps
 	rep.Write(orc)
 }
+
+var unexplained atomic.Int64
 
 var (
 	orcMu          sync.Mutex
